@@ -235,7 +235,7 @@ func (m *Manager) CreateAllocation( // nolint: cyclop
 
 	alloc.lifetimeTimer = time.AfterFunc(lifetime, func() {
 		verifhook.At("alloc.expire", alloc)
-		m.DeleteAllocation(alloc.fiveTuple)
+		m.deleteAllocationOf(alloc)
 	})
 
 	m.lock.Lock()
@@ -261,10 +261,27 @@ func (m *Manager) CreateAllocation( // nolint: cyclop
 
 // DeleteAllocation removes an allocation.
 func (m *Manager) DeleteAllocation(fiveTuple *FiveTuple) {
+	m.deleteAllocation(fiveTuple, nil)
+}
+
+// deleteAllocationOf removes alloc, and only alloc: it is what an allocation's own
+// goroutines and lifetime timer call. By the time they run the allocation may already
+// have been removed and the client may hold a new allocation on the same 5-tuple,
+// which must not be deleted in its place.
+func (m *Manager) deleteAllocationOf(alloc *Allocation) {
+	m.deleteAllocation(alloc.fiveTuple, alloc)
+}
+
+func (m *Manager) deleteAllocation(fiveTuple *FiveTuple, only *Allocation) {
 	fingerprint := fiveTuple.Fingerprint()
 
 	m.lock.Lock()
 	allocation := m.allocations[fingerprint]
+	if only != nil && allocation != only {
+		m.lock.Unlock()
+
+		return
+	}
 	delete(m.allocations, fingerprint)
 	m.lock.Unlock()
 
